@@ -20,6 +20,12 @@ for d in sorted(glob.glob("/verif/seeded/C??" + ("" if rnd == "1" else "-" + rnd
         mm = re.match(r"violation sig=([^:@\s]+(?:@[^:\s]+)?)", own["signatures"][0])
         sig = mm.group(1) if mm else ""
     verdict = ("caught (`%s`)" % sig) if own.get("exit") == 1 else "MISSED"
+    if own.get("exit") != 1:
+        for other, res in sorted(checks.items()):
+            if other != pid and res.get("exit") == 1:
+                mm = re.match(r"violation sig=([^:@\s]+(?:@[^:\s]+)?)", (res.get("signatures") or [""])[0])
+                verdict = "caught by %s (`%s`), whose subject it is; not by %s" % (other, mm.group(1) if mm else "", pid)
+                break
     if m.get("first_attempt"):
         verdict += " - after strengthening"
     if m.get("out_of_domain"):
